@@ -69,6 +69,7 @@ type Contracts struct {
 	Lemmas  []*Clause
 	FieldClass map[string]map[string]string // type -> field -> class
 	Axioms map[string]*Clause // named spec-level axioms (definitions of spec predicates over the heap)
+	GhostFields map[string]bool // "T.f": specification-only int field of struct type T (heap key F:T.f)
 	File    string
 }
 
@@ -172,6 +173,14 @@ func parseContracts(path string) (*Contracts, error) {
 					c.FieldClass[tn][f] = w[0]
 				}
 			}
+			cur = nil
+		case "ghostfield":
+			// ghostfield T.f : a specification-only int field (history variable) of struct type T;
+			// it lives in the field heap F:T.f, so `modifies` clauses and frames treat it as a field
+			if c.GhostFields == nil {
+				c.GhostFields = map[string]bool{}
+			}
+			c.GhostFields[strings.TrimSpace(rest)] = true
 			cur = nil
 		case "define", "instance":
 			i := strings.Index(rest, "=")
@@ -289,6 +298,12 @@ func parseContracts(path string) (*Contracts, error) {
 				// ghost k(self) = expr : history-variable update performed at every call
 				i := strings.Index(rest, "=")
 				cl := &Clause{Kind: "ghost", Name: strings.TrimSpace(rest[:i]), Expr: strings.TrimSpace(rest[i+1:]), Line: ln}
+				cur.Clauses = append(cur.Clauses, cl)
+				last = cl
+			case "ghostset":
+				// ghostset x.f = expr : update of a ghost field, performed where the function returns
+				i := strings.Index(rest, "=")
+				cl := &Clause{Kind: "ghostset", Name: strings.TrimSpace(rest[:i]), Expr: strings.TrimSpace(rest[i+1:]), Line: ln}
 				cur.Clauses = append(cur.Clauses, cl)
 				last = cl
 			case "decreases":
